@@ -16,6 +16,7 @@ def posStr (b : Bool) (c : Option (Key × Val)) : String :=
   (if b then "1:" else "0:") ++ (match c with | some x => kvStr x | none => "~")
 
 structure TState where
+  isMut : Bool
   vers : Array T
   iter : Option (T × Range Key × IterSt Key Val)
 
@@ -27,6 +28,9 @@ def parsePut? (fs : List String) : Option (Key × Val × Nat) :=
     let p ← p.toNat?
     pure (k, v, p)
   | _ => none
+
+/-- a mutable treap's iterator follows the treap (`ForceReseek` after every update, as ffldb does) -/
+def iterTree (st : TState) (t : T) : T := if st.isMut then st.vers.back?.getD .nil else t
 
 def treapOp (st : TState) (op : String) : Option (TState × String) :=
   let cur := st.vers.back?.getD .nil
@@ -68,28 +72,33 @@ def treapOp (st : TState) (op : String) : Option (TState × String) :=
     pure ({ st with iter := some (t, ⟨s, l⟩, ⟨true, none⟩) }, "ok")
   | ["F"] => do
     let (t, rg, it) ← st.iter
+    let t := iterTree st t
     let (it', b) := Treap.iterFirst cmpB t rg it
     pure ({ st with iter := some (t, rg, it') }, posStr b it'.cur)
   | ["L"] => do
     let (t, rg, it) ← st.iter
+    let t := iterTree st t
     let (it', b) := Treap.iterLast cmpB t rg it
     pure ({ st with iter := some (t, rg, it') }, posStr b it'.cur)
   | ["N"] => do
     let (t, rg, it) ← st.iter
+    let t := iterTree st t
     let (it', b) := Treap.iterNext cmpB t rg it
     pure ({ st with iter := some (t, rg, it') }, posStr b it'.cur)
   | ["P"] => do
     let (t, rg, it) ← st.iter
+    let t := iterTree st t
     let (it', b) := Treap.iterPrev cmpB t rg it
     pure ({ st with iter := some (t, rg, it') }, posStr b it'.cur)
   | ["S", k] => do
     let (t, rg, _) ← st.iter
     let k ← hexToList? k
+    let t := iterTree st t
     let (it', b) := Treap.iterSeekOp cmpB t rg k
     pure ({ st with iter := some (t, rg, it') }, posStr b it'.cur)
   | _ => none
 
-def runTreap (ops : List String) : String :=
+def runTreap (kind : String) (ops : List String) : String :=
   let rec go (st : TState) (ops : List String) (acc : List String) : Option (List String) :=
     match ops with
     | [] => some acc.reverse
@@ -97,12 +106,12 @@ def runTreap (ops : List String) : String :=
       match treapOp st op with
       | some (st', out) => go st' rest (out :: acc)
       | none => none
-  match go ⟨#[.nil], none⟩ ops [] with
+  match go ⟨kind == "mut", #[.nil], none⟩ ops [] with
   | some outs => "|".intercalate outs
   | none => "bad-op"
 
 def handle : List String → String
-  | "treap" :: _kind :: ops => runTreap ops
+  | "treap" :: kind :: ops => runTreap kind ops
   | "db" :: rest => DbModel.runDb rest
   | _ => "bad-op"
 
